@@ -12,8 +12,10 @@ def families(tier, seed, want=('aa', 'cg')):
     """list of (space name, grammar bound, template dict, all_atom, legacy options)"""
     q = tier == 'quick'
     fam = []
-    shapes = G.Bound(max_nodes=3 if q else 4, max_depth=1 if q else 2, max_open=1, max_rings=1, bonds=(),
+    shapes = G.Bound(max_nodes=3, max_depth=1 if q else 2, max_open=1, max_rings=1, bonds=(),
                      ring_styles=('d',), names=['A', 'B'], names_free=True, mults=(2,) if q else (2, 3), max_mults=1)
+    shapes4 = G.Bound(max_nodes=4, max_depth=2, max_open=1, max_rings=1, bonds=(), ring_styles=('d',), names=['A', 'B'],
+                      names_free=True, mults=(2,), max_mults=1)
     orders = G.Bound(max_nodes=3, max_depth=1, max_open=1, max_rings=1, bonds=('.', '='), ring_styles=('d',),
                      names=['A', 'B'], names_free=False, max_bonds=2)
     aa_all = dict(BF.AA)
@@ -23,9 +25,14 @@ def families(tier, seed, want=('aa', 'cg')):
     if 'aa' in want:
         fam.append(('aa-shapes', shapes, aa_all, True, (True,)))
         fam.append(('aa-orders', orders, aa_small, True, (True, False)))
+        if not q:
+            fam.append(('aa-shapes4', shapes4, {k: BF.AA[k] for k in ('pe', 'two', 'sq2', 'dir', 'surplus', 'ter', 'annot', 'dbl')},
+                        True, (True,)))
     if 'cg' in want:
         fam.append(('cg-shapes', shapes, cg_all, False, (True,)))
         fam.append(('cg-orders', orders, cg_small, False, (True, False)))
+        if not q:
+            fam.append(('cg-shapes4', shapes4, {k: BF.CG[k] for k in ('xy', 'dir', 'sq', 'surplus', 'ring')}, False, (True,)))
     # seed slice: 4-5 node base graphs over a seed-chosen template pair, both conventions
     keys = sorted(BF.AA)
     pair = {k: BF.AA[k] for k in (keys[seed % len(keys)], keys[(seed * 7 + 3) % len(keys)], 'pe')}
